@@ -734,7 +734,8 @@ pub async fn handle_changes(
             let mut dropped_count = 0;
             if let Some((dropped_change, _, _)) = queue.pop_front() {
                 for v in dropped_change.versions() {
-                    if let Entry::Occupied(mut entry) = seen.entry((change.actor_id, v)) {
+                    if let Entry::Occupied(mut entry) = seen.entry((dropped_change.actor_id, v))
+                    {
                         if let Some(seqs) = dropped_change.seqs().cloned() {
                             entry.get_mut().remove(seqs);
                         } else {
